@@ -66,10 +66,10 @@ class IndependentModelList(AbstractModelList):
 
         fantasy_models = [
             # a member takes its inputs as one argument: a tensor, or a list of tensors for a member with several inputs
-            model.get_fantasy_model(inputs_[0] if len(inputs_) == 1 else list(inputs_), *targets_, **kwargs_)
+            model.get_fantasy_model(inputs_[0] if len(inputs_) == 1 else inputs_, *targets_, **kwargs_)
             for model, inputs_, targets_, kwargs_ in length_safe_zip(
                 self.models,
-                _get_tensor_args(*inputs),
+                [list(member_inputs) for member_inputs in _get_tensor_args(*inputs)],
                 _get_tensor_args(*targets),
                 kwargs,
             )
